@@ -108,6 +108,8 @@ package redisemu
 //@ modifies global.signals alloc
 //@ ensures result != nil && result.objectsHead == nil && result.objectsTail == nil
 //@ ensures fresh: asref(result) >= old(alloc())
+// the pusher posts the wake-up while it holds the store lock: the post must never wait for the receiver (one slot, used at most once per registration)
+//@ ensures [C11,C20] ready.buffered: cap(result.ready) == 1
 
 // a client that starts waiting on a key is the last in that key's queue
 //@ func waitTable.enterWait
